@@ -464,7 +464,11 @@ func (b *Bitmap) CountRange(start, end uint64) (n uint64) {
 	// If range is entirely in one container then just count that range.
 	if found && skey == ekey {
 		citer.Next()
-		_, c := citer.Value()
+		k, c := citer.Value()
+		// The iterator skips nil containers, so it may have moved past skey.
+		if k != skey {
+			return 0
+		}
 		return uint64(c.countRange(int32(lowbits(start)), int32(lowbits(end))))
 	}
 
